@@ -138,6 +138,15 @@ def layout_case(case):
                 err = None
             except Exception as exc:  # noqa
                 obj, err = None, exc
+            if err is not None:
+                # the failure is not cached away: asking again fails again, in the same way
+                try:
+                    getattr(compose, kind)
+                    err2 = None
+                except Exception as exc:  # noqa
+                    err2 = exc
+                check(err2 is not None and type(err2) is type(err), "failure-not-repeated", lambda: "%s: first access raised %s, second access %s" % (
+                    kind, type(err).__name__, "returned an object" if err2 is None else "raised %s" % type(err2).__name__))
             if not candidates:
                 check(isinstance(err, RuntimeError), "missing-file-not-runtimeerror", lambda: "%s: no file in %r, got %r" % (kind, resolved, err if err else "an object"))
                 check(os.path.normpath(compose.compose_path) in os.path.normpath(str(err).split(" ")[-1]) or os.path.basename(os.path.normpath(compose.compose_path)) in str(err),
